@@ -23,16 +23,20 @@ class PCounter(persistent.Persistent):
         self.tag = tag
 
     def _p_resolveConflict(self, old, committed, new):
-        PCounter.calls.append((dict(old), dict(committed), dict(new)))
-        if PCounter.mode == 'raise':
-            raise ValueError('resolver failed')
-        if PCounter.mode == 'conflict':
-            from ZODB.POSException import ConflictError
-            raise ConflictError('resolver says no')
-        out = dict(new)
-        out['n'] = committed['n'] + new['n'] - old['n']
-        out['tag'] = 'merge(%s|%s|%s)' % (old['tag'], committed['tag'], new['tag'])
-        return out
+        # harness code on concrete states: run without the symbolic tracer (under tracing CrossHair
+        # substitutes its own container types, which must not end up in a stored record)
+        from zverif.api import untraced
+        with untraced():
+            PCounter.calls.append((dict(old), dict(committed), dict(new)))
+            if PCounter.mode == 'raise':
+                raise ValueError('resolver failed')
+            if PCounter.mode == 'conflict':
+                from ZODB.POSException import ConflictError
+                raise ConflictError('resolver says no')
+            out = dict(new)
+            out['n'] = committed['n'] + new['n'] - old['n']
+            out['tag'] = 'merge(%s|%s|%s)' % (old['tag'], committed['tag'], new['tag'])
+            return out
 
 
 class PNoResolve(persistent.Persistent):
